@@ -58,7 +58,13 @@ def h_now(ex, p, args, kw, node):
     return [(p, Opq("DateTime", ex.fresh_sym(opaque_sort("DateTime"), "now", node)))]
 
 
+def _np_zeros(ex, p, args, kw, node):
+    from .calls import np_zeros
+    return np_zeros(ex, p, args, kw, node)
+
+
 STDLIB = {
+    "numpy.zeros": _np_zeros,
     "datetime.datetime.now": h_now,
     "uuid.NAMESPACE_DNS": h_namespace_dns,
     "math.floor": h_floor, "math.ceil": h_ceil,
